@@ -132,6 +132,100 @@ def sound(verdict, values):
     return True, None
 
 
+def primitive_faults(mts, sp, target, bounds, flag, evaluate_exact):
+    """Shadow of geq_leq_zero / _compare_to_zero that checks every sympy PRIMITIVE the comparator relies on against
+    exhaustive evaluation over the integer box: `expr.subs(all lo / all hi)`, the relational `expr >= 0` / `expr <= 0`
+    when sympy decides it outright, and `function_range(expr, s, lo, hi)` (with the other symbols left free).  Returns
+    the set of primitives that returned a wrong result on the way to the verdict."""
+    faults = set()
+    box = {str(s): (lo, hi) for s, lo, hi in bounds}
+
+    def points(symbols):
+        names = sorted(str(x) for x in symbols)
+        for combo in itertools.product(*[range(box[n][0], box[n][1] + 1) for n in names]):
+            yield dict(zip(names, combo))
+
+    def exact(expr, pt):
+        return evaluate_exact(expr, {s: sp.Integer(pt[str(s)]) for s in expr.free_symbols})
+
+    if flag:
+        for pick in (1, 2):
+            pt = {str(s): b[pick] for b in bounds for s in [b[0]]}
+            try:
+                got = target.subs({b[0]: b[pick] for b in bounds})
+                want = exact(target, pt)
+                if got.is_number and got != want:
+                    faults.add("subs")
+            except Exception:
+                pass
+
+    def walk(f, check_lt, depth=0):
+        if depth > 6 or not getattr(f, "free_symbols", None):
+            return
+        f = f.doit()
+        if isinstance(f, sp.Expr):
+            f = f.replace(lambda e: e.is_Function and e.func == sp.ceiling, lambda e: e.args[0])
+            fs = list(mts.partition_heaviside(f))
+        else:
+            fs = [f]
+        if len(fs) > 1:
+            for f2 in fs:
+                walk(f2, check_lt, depth + 1)
+            return
+        f = fs[0]
+        if not getattr(f, "free_symbols", None):
+            return
+        try:
+            decided = (f >= 0) if check_lt else (f <= 0)
+            if decided in (sp.true, sp.false):
+                vals = []
+                for pt in points(f.free_symbols):
+                    try:
+                        vals.append(exact(f, pt))
+                    except Exception:
+                        pass
+                truth = all(v >= 0 for v in vals) if check_lt else all(v <= 0 for v in vals)
+                if vals and bool(decided) != truth:
+                    faults.add("relational")
+                return
+        except TypeError:
+            pass
+        if isinstance(f, (sp.Min, sp.Max)):
+            for g in f.args:
+                walk(g, check_lt, depth + 1)
+            return
+        chosen = min(f.free_symbols, key=lambda x: (f.count(x), str(x)))
+        lo, hi = box[str(chosen)]
+        try:
+            fr = mts.function_range(f, chosen, lo, hi)
+        except (NotImplementedError, TypeError):
+            return
+        others = f.free_symbols - {chosen}
+        ends = list(fr) if isinstance(fr, sp.FiniteSet) else [fr.left, fr.right]
+        for pt in points(others):
+            try:
+                vals = [exact(f, dict(pt, **{str(chosen): v})) for v in range(lo, hi + 1)]
+                ev = [exact(e, pt) if getattr(e, "free_symbols", None) else e for e in ends]
+            except Exception:
+                continue
+            if isinstance(fr, sp.FiniteSet):
+                if any(v not in ev for v in vals):
+                    faults.add("function_range")
+            elif min(vals) < ev[0] or max(vals) > ev[1]:
+                faults.add("function_range")
+        if isinstance(fr, sp.FiniteSet):
+            for e in ends:
+                walk(e, check_lt, depth + 1)
+        else:
+            walk(fr.left if check_lt else fr.right, check_lt, depth + 1)
+    try:
+        walk(target, True)
+        walk(target, False)
+    except Exception:
+        pass
+    return faults
+
+
 def check_formula(fsrc, bounds_src, counters):
     """fsrc: srepr string of the formula; bounds_src: [[name, lo, hi], ...]"""
     import sympy as sp
@@ -216,6 +310,28 @@ def check_formula(fsrc, bounds_src, counters):
                         sig = "heaviside_all_or_nothing"
             except Exception:
                 pass
+            if sig.startswith("unsound_"):
+                # still unexplained: did a sympy primitive the comparator relies on return a wrong result on the way?
+                faults = primitive_faults(mts, sp, drop_ceiling(expr) if "ceiling" in feat else expr, bounds,
+                                          bool(extra.get("terms_do_not_cross_zero")), evaluate)
+                if faults == {"relational"}:
+                    # sympy decides `expr >= 0` / `expr <= 0` outright and wrongly for an INTERMEDIATE expression of the
+                    # comparator's reduction: same mechanism as the top-level case
+                    sig = "sympy_assumptions_decide_wrong_sign"
+                elif faults:
+                    sig = "sympy_primitive_returns_wrong_result:" + "+".join(sorted(faults))
+                elif extra.get("terms_do_not_cross_zero") and verdict.name in ("ALWAYS_LEQ_THAN_ZERO", "ALWAYS_GEQ_THAN_ZERO"):
+                    # with the flag, "may be < 0" (which _compare_to_zero also answers when it CANNOT TELL) is returned
+                    # as ALWAYS_LEQ_THAN_ZERO before the other side is even asked (and likewise for > 0)
+                    try:
+                        tgt = drop_ceiling(expr) if "ceiling" in feat else expr
+                        lt = mts._compare_to_zero(tgt, bounds, True, True)
+                        gt = mts._compare_to_zero(tgt, bounds, False, True)
+                        if (verdict.name == "ALWAYS_LEQ_THAN_ZERO" and lt and not any(v < 0 for _, v in vals)) or \
+                                (verdict.name == "ALWAYS_GEQ_THAN_ZERO" and gt and not lt and not any(v > 0 for _, v in vals)):
+                            sig = "cannot_tell_taken_as_definite_under_terms_do_not_cross_zero"
+                    except Exception:
+                        pass
             viol.append({"sig": sig, "witness": dict(extra, formula=str(f), bounds=bounds_src, verdict=verdict.name,
                                                      point={str(k): v for k, v in wit[0].items()}, value=str(wit[1]))})
 
